@@ -795,9 +795,406 @@ theorem inv_readAll {st st' : St} {r r' : Rd} {v : Option Val} {evs : List Ev}
 
 
 
+
+/-! ### the bytes of a memory never change (so a window shows what was written before NewBuffer) -/
+
+/-- every memory of `s0` still exists in `st` with the same bytes -/
+def Keep (s0 st : St) : Prop :=
+  ∀ (m : Nat) (x : Mem), s0.mems[m]? = some x → ∃ x' : Mem, st.mems[m]? = some x' ∧ x'.bytes = x.bytes
+
+theorem keep_refl (st : St) : Keep st st := fun _ x h => ⟨x, h, rfl⟩
+
+theorem keep_of_mems {s0 st st' : St} (h : Keep s0 st) (he : st'.mems = st.mems) : Keep s0 st' := by
+  intro m x hm; rw [he]; exact h m x hm
+
+theorem keep_acquire {s0 st st' : St} {i : Nat} (h : Keep s0 st) (ha : acquire st i = some st') : Keep s0 st' := by
+  unfold acquire at ha
+  cases hi : st.objs[i]? with
+  | none => simp [hi] at ha
+  | some o =>
+    simp only [hi] at ha
+    split at ha
+    · cases ha
+    · simp only [Option.some.injEq] at ha; subst ha; exact keep_of_mems h rfl
+
+theorem keep_narrow {s0 st : St} {i off len : Nat} (h : Keep s0 st) : Keep s0 (narrow st i off len) := by
+  unfold narrow
+  cases st.objs[i]? with
+  | none => exact h
+  | some o => exact keep_of_mems h rfl
+
+theorem keep_poolGet {s0 st : St} {n : Nat} {c : Bytes} (h : Keep s0 st) : Keep s0 (poolGet st n c).1 := by
+  intro m x hm
+  obtain ⟨x', h1, h2⟩ := h m x hm
+  refine ⟨x', ?_, h2⟩
+  simp only [poolGet]
+  rw [List.getElem?_append_left]
+  · exact h1
+  · rcases Nat.lt_or_ge m st.mems.length with hl | hl
+    · exact hl
+    · rw [List.getElem?_eq_none hl] at h1; cases h1
+
+theorem keep_poolPut {s0 st : St} {m : Nat} (h : Keep s0 st) : Keep s0 (poolPut st m).1 := by
+  unfold poolPut
+  cases hm : st.mems[m]? with
+  | none => exact h
+  | some y =>
+    intro k x hk
+    obtain ⟨x', h1, h2⟩ := h k x hk
+    simp only []
+    rw [List.getElem?_set]
+    by_cases hmk : m = k
+    · subst hmk
+      rw [hm] at h1; cases h1
+      have : m < st.mems.length := by
+        rcases Nat.lt_or_ge m st.mems.length with hl | hl
+        · exact hl
+        · rw [List.getElem?_eq_none hl] at hm; cases hm
+      exact ⟨{ y with puts := y.puts + 1 }, by simp [this], h2⟩
+    · simp only [hmk, if_false]; exact ⟨x', h1, h2⟩
+
+theorem keep_newBuffer {s0 st : St} {m n : Nat} (h : Keep s0 st) : Keep s0 (newBuffer st m n).1 := by
+  unfold newBuffer
+  cases st.mems[m]? with
+  | none => exact h
+  | some x =>
+    simp only []
+    split
+    · exact h
+    · exact keep_of_mems h rfl
+
+theorem keep_newView {s0 st st' : St} {b off len id : Nat} (h : Keep s0 st)
+    (hv : newView st b off len = some (st', id)) : Keep s0 st' ∧ True := by
+  refine ⟨?_, trivial⟩
+  unfold newView at hv
+  cases hb : st.objs[b]? with
+  | none => simp [hb] at hv
+  | some o =>
+    simp only [hb] at hv
+    split at hv
+    · cases hv
+    · cases hr : st.objs[o.root]? with
+      | none => simp [hr] at hv
+      | some r =>
+        simp only [hr] at hv
+        split at hv
+        · cases hv
+        · simp only [Option.some.injEq, Prod.mk.injEq] at hv
+          obtain ⟨rfl, _⟩ := hv
+          exact keep_of_mems h rfl
+
+theorem keep_release {s0 st st' : St} {i : Nat} {evs : List Ev} (h : Keep s0 st)
+    (hr : release st i = some (st', evs)) : Keep s0 st' := by
+  unfold release at hr
+  cases hi : st.objs[i]? with
+  | none => simp [hi] at hr
+  | some o =>
+    simp only [hi] at hr
+    split at hr
+    · cases hr
+    · split at hr
+      · cases hr
+      · split at hr
+        · simp only [Option.some.injEq, Prod.mk.injEq] at hr; obtain ⟨rfl, _⟩ := hr; exact keep_of_mems h rfl
+        · split at hr
+          · simp only [Option.some.injEq, Prod.mk.injEq] at hr; obtain ⟨rfl, _⟩ := hr
+            exact keep_poolPut (keep_of_mems h rfl)
+          · split at hr
+            · cases hr
+            · split at hr
+              · cases hr
+              · split at hr
+                · simp only [Option.some.injEq, Prod.mk.injEq] at hr; obtain ⟨rfl, _⟩ := hr
+                  exact keep_of_mems h rfl
+                · simp only [Option.some.injEq, Prod.mk.injEq] at hr; obtain ⟨rfl, _⟩ := hr
+                  exact keep_poolPut (keep_of_mems h rfl)
+
+theorem keep_refVal {s0 : St} {st st' : St} {v : Val} (h : Keep s0 st) (hr : refVal st v = some st') : Keep s0 st' := by
+  cases v <;> simp only [refVal, Option.some.injEq, reduceCtorEq] at hr
+  · exact keep_acquire h hr
+  · subst hr; exact h
+  · subst hr; exact h
+
+theorem keep_freeVal {s0 : St} {st st' : St} {v : Val} {evs : List Ev} (h : Keep s0 st)
+    (hr : freeVal st v = some (st', evs)) : Keep s0 st' := by
+  cases v <;> simp only [freeVal, Option.some.injEq, Prod.mk.injEq, reduceCtorEq] at hr
+  · exact keep_release h hr
+  · obtain ⟨rfl, _⟩ := hr; exact h
+  · obtain ⟨rfl, _⟩ := hr; exact h
+
+theorem keep_sliceVal {s0 : St} {st st' : St} {v v' : Val} {s e : Nat} (h : Keep s0 st)
+    (hr : sliceVal st v s e = some (st', v')) : Keep s0 st' := by
+  cases v with
+  | buf i =>
+    simp only [sliceVal] at hr
+    cases hi : st.objs[i]? with
+    | none => simp [hi] at hr
+    | some o =>
+      simp only [hi] at hr
+      split at hr
+      · cases hr
+      · split at hr
+        · cases hr
+        · split at hr
+          · simp only [Option.some.injEq, Prod.mk.injEq] at hr; obtain ⟨rfl, _⟩ := hr; exact h
+          · split at hr
+            · cases ha : acquire st i with
+              | none => simp [ha] at hr
+              | some s1 => simp [ha] at hr; obtain ⟨rfl, _⟩ := hr; exact keep_acquire h ha
+            · cases hv : newView st i (o.off + s) (e - s) with
+              | none => simp [hv] at hr
+              | some p => simp [hv] at hr; obtain ⟨rfl, _⟩ := hr; exact (keep_newView h hv).1
+  | sl arr n =>
+    simp only [sliceVal] at hr
+    split at hr
+    · simp only [Option.some.injEq, Prod.mk.injEq] at hr; obtain ⟨rfl, _⟩ := hr; exact h
+    · cases hr
+  | empty =>
+    simp only [sliceVal] at hr
+    split at hr
+    · simp only [Option.some.injEq, Prod.mk.injEq] at hr; obtain ⟨rfl, _⟩ := hr; exact h
+    · cases hr
+  | nil => simp [sliceVal] at hr
+
+theorem keep_splitVal {s0 : St} {st st' : St} {v l r : Val} {n : Nat} (h : Keep s0 st)
+    (hr : splitVal st v n = some (st', l, r)) : Keep s0 st' := by
+  cases v with
+  | buf i =>
+    simp only [splitVal] at hr
+    cases hi : st.objs[i]? with
+    | none => simp [hi] at hr
+    | some o =>
+      simp only [hi] at hr
+      split at hr
+      · cases hr
+      · cases hv : newView st i (o.off + n) (o.len - n) with
+        | none => simp [hv] at hr
+        | some p =>
+          simp [hv] at hr
+          obtain ⟨rfl, _⟩ := hr
+          exact keep_narrow (keep_newView h hv).1
+  | sl arr len =>
+    simp only [splitVal] at hr
+    split at hr
+    · simp only [Option.some.injEq, Prod.mk.injEq] at hr; obtain ⟨rfl, _⟩ := hr; exact h
+    · cases hr
+  | empty => simp only [splitVal, Option.some.injEq, Prod.mk.injEq] at hr; obtain ⟨rfl, _⟩ := hr; exact h
+  | nil => simp [splitVal] at hr
+
+theorem keep_readVal {s0 : St} {st st' : St} {v rest : Val} {n : Nat} {b : Bytes} {evs : List Ev} (h : Keep s0 st)
+    (hr : readVal st v n = some (st', b, rest, evs)) : Keep s0 st' := by
+  cases v with
+  | buf i =>
+    simp only [readVal] at hr
+    cases hi : st.objs[i]? with
+    | none => simp [hi] at hr
+    | some o =>
+      simp only [hi] at hr
+      split at hr
+      · cases hr
+      · split at hr
+        · cases hrel : release st i with
+          | none => simp [hrel] at hr
+          | some p => simp [hrel] at hr; obtain ⟨rfl, _⟩ := hr; exact keep_release h hrel
+        · simp only [Option.some.injEq, Prod.mk.injEq] at hr; obtain ⟨rfl, _⟩ := hr; exact keep_narrow h
+  | sl arr len =>
+    simp only [readVal] at hr
+    split at hr <;> (simp only [Option.some.injEq, Prod.mk.injEq] at hr; obtain ⟨rfl, _⟩ := hr; exact h)
+  | empty => simp only [readVal, Option.some.injEq, Prod.mk.injEq] at hr; obtain ⟨rfl, _⟩ := hr; exact h
+  | nil => simp [readVal] at hr
+
+theorem keep_copyVal {s0 : St} {st : St} {data : Bytes} (h : Keep s0 st) : Keep s0 (copyVal st data).1 := by
+  unfold copyVal
+  split
+  · exact h
+  · exact keep_newBuffer (keep_poolGet h)
+
+theorem keep_refAll {s0 : St} {st st' : St} {vs : List Val} (h : Keep s0 st) (hr : refAll st vs = some st') : Keep s0 st' := by
+  induction vs generalizing st with
+  | nil => simp [refAll] at hr; subst hr; exact h
+  | cons v t ih =>
+    simp only [refAll] at hr
+    cases h1 : refVal st v with
+    | none => simp [h1] at hr
+    | some s1 => simp [h1] at hr; exact ih (keep_refVal h h1) hr
+
+theorem keep_freeAll {s0 : St} {st st' : St} {vs : List Val} {evs : List Ev} (h : Keep s0 st)
+    (hr : freeAll st vs = some (st', evs)) : Keep s0 st' := by
+  induction vs generalizing st evs with
+  | nil => simp [freeAll] at hr; obtain ⟨rfl, _⟩ := hr; exact h
+  | cons v t ih =>
+    simp only [freeAll] at hr
+    cases h1 : freeVal st v with
+    | none => simp [h1] at hr
+    | some p =>
+      simp [h1] at hr
+      obtain ⟨q, evs2, hq2, rfl, _⟩ := hr
+      exact ih (keep_freeVal h (by rw [h1])) hq2
+
+theorem keep_matToBuf {s0 : St} {st st' : St} {vs : List Val} {v : Val} {evs : List Ev} (h : Keep s0 st)
+    (hr : matToBuf st vs = some (st', v, evs)) : Keep s0 st' := by
+  unfold matToBuf at hr
+  split at hr
+  · rename_i v0
+    simp only [Option.map_eq_some_iff, Prod.mk.injEq] at hr
+    obtain ⟨s1, h1, rfl, _⟩ := hr
+    exact keep_refVal h h1
+  · cases hd : dataAll st vs with
+    | none => simp [hd] at hr
+    | some d =>
+      simp only [hd] at hr
+      split at hr
+      · simp only [Option.some.injEq, Prod.mk.injEq] at hr; obtain ⟨rfl, _⟩ := hr; exact h
+      · simp only [Option.some.injEq, Prod.mk.injEq] at hr; obtain ⟨rfl, _⟩ := hr
+        exact keep_newBuffer (keep_poolGet h)
+
+
+
+theorem keep_freeFirst {s0 : St} {st st' : St} {r r' : Rd} {evs : List Ev} {b : Bool} (h : Keep s0 st)
+    (hr : freeFirstIfEmpty st r = some (st', r', evs, b)) : Keep s0 st' := by
+  unfold freeFirstIfEmpty at hr
+  split at hr
+  · simp only [Option.some.injEq, Prod.mk.injEq] at hr; obtain ⟨rfl, _⟩ := hr; exact h
+  · rename_i v t _
+    cases hl : lenOf st v with
+    | none => simp [hl] at hr
+    | some l =>
+      simp only [hl] at hr
+      split at hr
+      · simp only [Option.some.injEq, Prod.mk.injEq] at hr; obtain ⟨rfl, _⟩ := hr; exact h
+      · simp only [Option.map_eq_some_iff, Prod.mk.injEq] at hr
+        obtain ⟨q, hq, rfl, _⟩ := hr
+        exact keep_freeVal h (by rw [hq])
+
+theorem keep_rdRead (fuel : Nat) {s0 : St} {st st' : St} {r r' : Rd} {n : Nat} {acc b : Bytes} {evs evs' : List Ev}
+    (h : Keep s0 st) (hr : rdRead fuel st r n acc evs = some (st', r', b, evs')) : Keep s0 st' := by
+  induction fuel generalizing st r n acc evs with
+  | zero => simp only [rdRead, Option.some.injEq, Prod.mk.injEq] at hr; obtain ⟨rfl, _⟩ := hr; exact h
+  | succ f ih =>
+    simp only [rdRead] at hr
+    split at hr
+    · simp only [Option.some.injEq, Prod.mk.injEq] at hr; obtain ⟨rfl, _⟩ := hr; exact h
+    · split at hr
+      · cases hr
+      · rename_i v t _
+        cases hd : dataOf st v with
+        | none => simp [hd] at hr
+        | some d =>
+          simp only [hd] at hr
+          split at hr
+          · cases hr
+          · split at hr
+            · cases hr
+            · rename_i st2 r2 e2 _ hff
+              exact ih (keep_freeFirst h hff) hr
+
+theorem keep_rdDiscard (fuel : Nat) {s0 : St} {st st' : St} {r r' : Rd} {n n' : Nat} {evs evs' : List Ev}
+    (h : Keep s0 st) (hr : rdDiscard fuel st r n evs = some (st', r', n', evs')) : Keep s0 st' := by
+  induction fuel generalizing st r n evs with
+  | zero => simp only [rdDiscard, Option.some.injEq, Prod.mk.injEq] at hr; obtain ⟨rfl, _⟩ := hr; exact h
+  | succ f ih =>
+    simp only [rdDiscard] at hr
+    split at hr
+    · simp only [Option.some.injEq, Prod.mk.injEq] at hr; obtain ⟨rfl, _⟩ := hr; exact h
+    · split at hr
+      · cases hr
+      · rename_i v t _
+        cases hd : dataOf st v with
+        | none => simp [hd] at hr
+        | some d =>
+          simp only [hd] at hr
+          split at hr
+          · cases hf : freeVal st v with
+            | none => simp [hf] at hr
+            | some q => simp only [hf] at hr; exact ih (keep_freeVal h (by rw [hf])) hr
+          · exact ih h hr
+
+theorem keep_rdSkip (fuel : Nat) {s0 : St} {st st' : St} {r r' : Rd} {evs evs' : List Ev}
+    (h : Keep s0 st) (hr : rdSkip fuel st r evs = some (st', r', evs')) : Keep s0 st' := by
+  induction fuel generalizing st r evs with
+  | zero => simp only [rdSkip, Option.some.injEq, Prod.mk.injEq] at hr; obtain ⟨rfl, _⟩ := hr; exact h
+  | succ f ih =>
+    simp only [rdSkip] at hr
+    split at hr
+    · cases hr
+    · rename_i st2 r2 e2 again hff
+      split at hr
+      · exact ih (keep_freeFirst h hff) hr
+      · simp only [Option.some.injEq, Prod.mk.injEq] at hr; obtain ⟨rfl, _⟩ := hr; exact keep_freeFirst h hff
+
+theorem keep_rdByte {s0 : St} {st st' : St} {r r' : Rd} {b : Option UInt8} {evs : List Ev}
+    (h : Keep s0 st) (hr : rdByte st r = some (st', r', b, evs)) : Keep s0 st' := by
+  unfold rdByte at hr
+  split at hr
+  · simp only [Option.some.injEq, Prod.mk.injEq] at hr; obtain ⟨rfl, _⟩ := hr; exact h
+  · split at hr
+    · cases hr
+    · rename_i st1 r1 e1 hsk
+      have h1 := keep_rdSkip _ h hsk
+      split at hr
+      · cases hr
+      · split at hr
+        · cases hr
+        · split at hr
+          · cases hr
+          · simp only [Option.map_eq_some_iff, Prod.mk.injEq] at hr
+            obtain ⟨q, hq, rfl, _⟩ := hr
+            obtain ⟨q1, q2, q3, q4⟩ := q
+            exact keep_freeFirst h1 hq
+
+
+theorem keep_readAll {st st' : St} {r r' : Rd} {v : Option Val} {evs : List Ev}
+    (hr : readAll st r = some (st', r', v, evs)) : Keep st st' := by
+  unfold readAll at hr
+  split at hr
+  · cases hr
+  · simp only [] at hr
+    split at hr
+    · cases hr
+    · rename_i st1 r1 bytes evs1 hrd
+      have h1 : Keep st st1 := keep_rdRead _ (keep_poolGet (keep_refl st)) hrd
+      split at hr
+      · simp only [Option.some.injEq, Prod.mk.injEq] at hr; obtain ⟨rfl, _⟩ := hr; exact keep_poolPut h1
+      · simp only [Option.some.injEq, Prod.mk.injEq] at hr; obtain ⟨rfl, _⟩ := hr
+        apply keep_newBuffer
+        split
+        · rename_i x hx
+          intro m y hm
+          obtain ⟨y', q1, q2⟩ := h1 m y hm
+          have hlt : m < st.mems.length := by
+            rcases Nat.lt_or_ge m st.mems.length with hl | hl
+            · exact hl
+            · rw [List.getElem?_eq_none hl] at hm; cases hm
+          refine ⟨y', ?_, q2⟩
+          simp only [poolGet]
+          rw [List.getElem?_set]
+          have : ¬ st.mems.length = m := by omega
+          simp only [this, if_false]
+          exact q1
+        · exact h1
+
+/-- no operation changes the bytes of an existing memory -/
+theorem keep_step {st st' : St} (hs : Step st st') : Keep st st' := by
+  cases hs with
+  | frame _ hm => exact keep_of_mems (keep_refl st) hm
+  | newbuf n c k => exact keep_newBuffer (keep_poolGet (keep_refl st))
+  | copy data => exact keep_copyVal (keep_refl st)
+  | ref hr => exact keep_refVal (keep_refl st) hr
+  | free hr => exact keep_freeVal (keep_refl st) hr
+  | slice hr => exact keep_sliceVal (keep_refl st) hr
+  | split hr => exact keep_splitVal (keep_refl st) hr
+  | read hr => exact keep_readVal (keep_refl st) hr
+  | mattobuf hr => exact keep_matToBuf (keep_refl st) hr
+  | reader hr => exact keep_refAll (keep_refl st) hr
+  | close hr => exact keep_freeAll (keep_refl st) hr
+  | rread hr => exact keep_rdRead _ (keep_refl st) hr
+  | rdiscard hr => exact keep_rdDiscard _ (keep_refl st) hr
+  | rbyte hr => exact keep_rdByte (keep_refl st) hr
+  | readall hr => exact keep_readAll hr
+
 theorem inv_step {st st' : St} (h : InvO st.objs) (hs : Step st st') : InvO st'.objs := by
   cases hs with
-  | frame he => rw [he]; exact h
+  | frame he _ => rw [he]; exact h
   | newbuf n c k => exact inv_newBuffer (inv_poolGet h)
   | copy data => exact inv_copyVal h
   | ref hr => exact inv_refVal h hr
